@@ -33,6 +33,7 @@ func (a *rawAttached) HostToPlugin(n, ad string) (string, string, error) { retur
 //
 //	broker-eos  (C07) the plugin opens 4 brokered servers, announces them on the broker stream and ends that stream at
 //	            once; the host dials all four inside the window: each connection is answered by its id's server
+//	broker-emptyknock  like broker-eos with the stream kept open, every announcement carrying an empty knock sub-message
 //	stdio-big   (C11) the plugin forwards its output in chunks of whatever size read() returned (1000 B, 100 B, 64 KiB,
 //	            10 B ...): every byte arrives on the right sync writer, in order
 func init() {
@@ -56,7 +57,7 @@ func init() {
 			var addr string
 			stopCh := make(chan func(), 1)
 			x.Go("plugin", func() {
-				if p["mode"] == "broker-eos" {
+				if p["mode"] == "broker-eos" || p["mode"] == "broker-emptyknock" {
 					for i := 1; i <= 4; i++ {
 						path := filepath.Join(dir, fmt.Sprintf("b%d", i))
 						ln, err := vnet.Listen("unix", path)
@@ -68,9 +69,9 @@ func init() {
 						grpctest.RegisterPingPongServer(s, &ppServer{tag: fmt.Sprintf("id=%d", i)})
 						go s.Serve(ln)
 						x.OnCleanup(s.Stop)
-						opts.Infos = append(opts.Infos, plugin.VRawConnInfo{ID: uint32(i), Network: "unix", Address: path})
+						opts.Infos = append(opts.Infos, plugin.VRawConnInfo{ID: uint32(i), Network: "unix", Address: path, EmptyKnock: p["mode"] == "broker-emptyknock"})
 					}
-					opts.EndBrokerStream = true
+					opts.EndBrokerStream = p["mode"] == "broker-eos"
 				}
 				if p["mode"] == "stdio-big" {
 					for i, c := range []struct{ ch, n int }{{1, 1000}, {2, 100}, {1, 65536}, {1, 10}, {2, 10}, {2, 70000}, {1, 1}} {
@@ -124,7 +125,7 @@ func init() {
 				return
 			}
 			switch p["mode"] {
-			case "broker-eos":
+			case "broker-eos", "broker-emptyknock":
 				d := newDone(x)
 				x.Put("d", d)
 				for i := 1; i <= 4; i++ {
